@@ -330,12 +330,14 @@ def run(ch: Choices, opts: Dict[str, Any]) -> Dict[str, Any]:
         raise Violation("controller", f"controller-fault-on-delivery|{type(e).__name__}|{fr.name}",
                         {"task": task.name, "error": str(e)[:300], **sample})
     sched.on_error = on_error
-    cap = 30000
+    from sim.rigs.controller import LivenessWatch
+    watch = LivenessWatch(sched, [node], link, window=8000, hard=400000)
     while not state["done"]:
         if sched.step() is None:
             raise Violation("liveness", "liveness|deadlock", dict(sample))
-        if sched.steps > cap:
-            raise Violation("liveness", "liveness|no-progress", dict(sample))
+        stuck = watch.verdict()
+        if stuck:
+            raise Violation("liveness", f"liveness|{stuck}", dict(sample))
     link.stop()
     conn = state["conn"]
 
